@@ -24,22 +24,23 @@ import (
 // ---------- scripted responses ----------
 
 type respSpec struct {
-	Status     int         `json:"status"`
-	Headers    [][2]string `json:"headers"`
-	Framing    string      `json:"framing"` // cl | chunked | close | none
-	BodyLen    int         `json:"body_len"`
-	Chunks     []int       `json:"chunks,omitempty"`
-	Interim    []string    `json:"interim,omitempty"` // raw 1xx blocks sent before the body is read
-	EarlyFinal bool        `json:"early_final,omitempty"`
-	Truncate   int         `json:"truncate,omitempty"` // > 0: send only that many entity bytes, then close
-	Close      bool        `json:"close,omitempty"`
-	Gzip       bool        `json:"gzip,omitempty"`
-	CloseAfter int         `json:"close_after,omitempty"` // h1: read that many body bytes, then close the connection without answering
-	ReadOnly   int         `json:"read_only,omitempty"`   // h2/h3 handler: read that many body bytes, answer, return
-	Early103   bool        `json:"early_103,omitempty"`   // h2/h3 handler: a 103 Early Hints block before the final one
-	Trailers   [][2]string `json:"trailers,omitempty"`    // h1 chunked: trailer fields after the last chunk
-	Fault      string      `json:"fault,omitempty"`       // bad-chunk | bad-trailer (h1 chunked) | bad-gzip-crc: the body reader delivers data AND an error
-	body       []byte      // entity bytes on the wire
+	Status      int         `json:"status"`
+	Headers     [][2]string `json:"headers"`
+	Framing     string      `json:"framing"` // cl | chunked | close | none
+	BodyLen     int         `json:"body_len"`
+	Chunks      []int       `json:"chunks,omitempty"`
+	Interim     []string    `json:"interim,omitempty"` // raw 1xx blocks sent before the body is read
+	EarlyFinal  bool        `json:"early_final,omitempty"`
+	Truncate    int         `json:"truncate,omitempty"` // > 0: send only that many entity bytes, then close
+	Close       bool        `json:"close,omitempty"`
+	Gzip        bool        `json:"gzip,omitempty"`
+	CloseNoResp bool        `json:"close_without_response,omitempty"` // h1: read the whole request, then close the connection without answering
+	CloseAfter  int         `json:"close_after,omitempty"`            // h1: read that many body bytes, then close the connection without answering
+	ReadOnly    int         `json:"read_only,omitempty"`              // h2/h3 handler: read that many body bytes, answer, return
+	Early103    bool        `json:"early_103,omitempty"`              // h2/h3 handler: a 103 Early Hints block before the final one
+	Trailers    [][2]string `json:"trailers,omitempty"`               // h1 chunked: trailer fields after the last chunk
+	Fault       string      `json:"fault,omitempty"`                  // bad-chunk | bad-trailer (h1 chunked) | bad-gzip-crc: the body reader delivers data AND an error
+	body        []byte      // entity bytes on the wire
 }
 
 func (s respSpec) raw(method string) []byte {
@@ -215,6 +216,18 @@ func (o *h1Origin) handle(c net.Conn) {
 		}
 		rs := sc.resps[idx]
 		raw := rs.raw(rq.Method)
+		if rs.CloseNoResp {
+			io.Copy(io.Discard, rq.Body)
+			wire := cc.slice(start, cc.size()-br.Buffered())
+			if sc.gate != nil {
+				sc.gate(idx) // the client has finished writing (and dumping) the request
+			}
+			o.mu.Lock()
+			sc.obs[idx] = h1Obs{Wire: wire}
+			o.mu.Unlock()
+			close(sc.done[idx])
+			return
+		}
 		if rs.CloseAfter > 0 {
 			io.CopyN(io.Discard, rq.Body, int64(rs.CloseAfter))
 			wire := cc.slice(start, cc.size()-br.Buffered())
@@ -301,15 +314,17 @@ type exSpec struct {
 	Expect      bool        `json:"expect,omitempty"`
 	ReadBuf     int         `json:"read_buf"`
 	Retry       bool        `json:"retry,omitempty"`
-	Clone       bool        `json:"clone,omitempty"`       // the exchange runs on client.Clone(); the original's dump is switched off first
-	CloneKeep   bool        `json:"clone_keep,omitempty"`  // ... unless this is set: the original keeps dumping too (two live dumpers)
-	ForceAsync  bool        `json:"force_async,omitempty"` // the client-level dumper is asynchronous and its first write is slow
-	ManualRead  int         `json:"manual_read,omitempty"` // > 0: auto-read off, the caller Reads resp.Body with a buffer of this size
-	Interactive []int       `json:"interactive,omitempty"` // streamed upload: part sizes; part i is produced only after the origin has received part i-1
-	After       bool        `json:"after,omitempty"`       // a plain GET without dumper of its own follows on the same client
-	Warm        bool        `json:"warm_up,omitempty"`     // a GET with its own request-level dumper goes first on the same client / connection
-	WantErr     bool        `json:"want_error,omitempty"`  // the scripted exchange ends in an error (reset upload)
-	Abort       string      `json:"abort,omitempty"`       // "h1-close" | "h3-partial": the upload breaks off at an amount the client decides
+	Clone       bool        `json:"clone,omitempty"`          // the exchange runs on client.Clone(); the original's dump is switched off first
+	CloneKeep   bool        `json:"clone_keep,omitempty"`     // ... unless this is set: the original keeps dumping too (two live dumpers)
+	ForceAsync  bool        `json:"force_async,omitempty"`    // the client-level dumper is asynchronous and its first write is slow
+	DisableMid  bool        `json:"disable_mid,omitempty"`    // DisableDumpAll is called when the response head has arrived, before the caller reads the body
+	RetryOnErr  bool        `json:"retry_on_error,omitempty"` // one retry when the attempt ends in an error (first attempt: the origin closes without answering)
+	ManualRead  int         `json:"manual_read,omitempty"`    // > 0: auto-read off, the caller Reads resp.Body with a buffer of this size
+	Interactive []int       `json:"interactive,omitempty"`    // streamed upload: part sizes; part i is produced only after the origin has received part i-1
+	After       bool        `json:"after,omitempty"`          // a plain GET without dumper of its own follows on the same client
+	Warm        bool        `json:"warm_up,omitempty"`        // a GET with its own request-level dumper goes first on the same client / connection
+	WantErr     bool        `json:"want_error,omitempty"`     // the scripted exchange ends in an error (reset upload)
+	Abort       string      `json:"abort,omitempty"`          // "h1-close" | "h3-partial": the upload breaks off at an amount the client decides
 	Resps       []respSpec  `json:"resps"`
 	Shape       string      `json:"shape"`
 	body        []byte
@@ -826,6 +841,10 @@ func runClient(c *req.Client, url string, ex exSpec, id string, cfg *dumpCfg, wc
 	c.SetTimeout(10 * time.Second)
 	c.GetTransport().ReadBufferSize = ex.ReadBuf
 	c.GetTransport().SetExpectContinueTimeout(30 * time.Second)
+	if ex.RetryOnErr {
+		c.SetCommonRetryCount(1).SetCommonRetryFixedInterval(time.Millisecond).
+			SetCommonRetryCondition(func(resp *req.Response, err error) bool { return err != nil })
+	}
 	if ex.Retry {
 		c.SetCommonRetryCount(1).SetCommonRetryFixedInterval(time.Millisecond).
 			SetCommonRetryCondition(func(resp *req.Response, err error) bool { return err == nil && resp.StatusCode == 500 })
@@ -914,6 +933,9 @@ func runClient(c *req.Client, url string, ex exSpec, id string, cfg *dumpCfg, wc
 		}()
 		resp, err := rq.Send(ex.Method, url)
 		var reads []readObs
+		if ex.DisableMid && err == nil {
+			c.DisableDumpAll() // the exchange is still in flight: its wrappers keep dumping
+		}
 		if ex.ManualRead > 0 && err == nil && resp != nil && resp.Response != nil && resp.Body != nil {
 			buf := make([]byte, ex.ManualRead)
 			for k := 0; k < 100000; k++ {
@@ -1314,6 +1336,10 @@ func h1PairsGen(r *hk.Run, rng *hk.Rand, count int, gen func(*hk.Rand) exSpec) {
 			p := h1PartsOf(ob, resps[k], method, on.Res.Body, final, on.Res.Err)
 			p.parts.Warm = ex.Warm && k == 0
 			p.parts.After = isAfter
+			if resps[k].CloseNoResp {
+				p.parts.NoResp, p.parts.RespHeader = true, nil
+			}
+			p.parts.ResetReqBuf = ex.RetryOnErr && k > 0
 			if final && len(on.Reads) > 0 {
 				p.parts.Reads = on.Reads
 				if l := on.Reads[len(on.Reads)-1]; l.St == "RFail" {
@@ -1375,7 +1401,12 @@ func h1PairsGen(r *hk.Run, rng *hk.Rand, count int, gen func(*hk.Rand) exSpec) {
 			}
 		}
 		nt := cfg.anyOn() && (ex.BodyLen > 0 || ex.Resps[len(ex.Resps)-1].BodyLen > 0 || len(ex.Resps) > 1 || strings.Contains(ex.Shape, "longhdr") || ex.ReadBuf != 0)
-		emitExch(r, cfg, coqX, xs, on.Sink, pl, map[string]interface{}{"kind": "h1", "exchange": ex, "dump": cfg}, "h1|"+keyOf(in), nt)
+		if ex.RetryOnErr && len(coqX) == 2 {
+			r.Add(hk.Case{Coq: pl.wrap(fmt.Sprintf("ExchCaseR %s %s %s %s %s", coqOptOpt(cfg.Client, 0), coqOptOpt(cfg.Request, 1), hk.CoqList(coqX[:1]), hk.CoqList(coqX[1:]), coqObs(on.Sink, pl))),
+				Desc: map[string]interface{}{"kind": "h1-retry", "exchange": ex, "dump": cfg}}, "h1r|"+keyOf(in), nt)
+		} else {
+			emitExch(r, cfg, coqX, xs, on.Sink, pl, map[string]interface{}{"kind": "h1", "exchange": ex, "dump": cfg}, "h1|"+keyOf(in), nt)
+		}
 		emitReqOps(r, cfg, in)
 	}
 }
@@ -1419,6 +1450,22 @@ func h1InteractivePairs(r *hk.Run, rng *hk.Rand, count int) {
 
 // forceCfg: scenario-specific demands on the dump configuration
 func forceCfg(cfg *dumpCfg, ex exSpec, rng *hk.Rand, r *hk.Run) {
+	if ex.RetryOnErr {
+		if cfg.Request == nil || rng.Chance(40) {
+			cfg.setReqOps([]reqOp{{Kind: "enable"}}) // the request's own buffer
+		}
+		if cfg.Request != nil && !cfg.Request.Set[slotOut] {
+			r.Count("retry after an attempt without response, dump in the request's own buffer")
+		}
+	}
+	if ex.DisableMid {
+		if cfg.Client == nil {
+			o := genOpt(rng, 0, r)
+			cfg.Client = &o
+		}
+		cfg.Client.Async = true
+		cfg.Client.On[3] = true // the response body is what is still to come
+	}
 	if ex.ForceAsync {
 		if cfg.Client == nil {
 			o := genOpt(rng, 0, r)
@@ -1451,3 +1498,40 @@ func genCloneAsync(rng *hk.Rand) exSpec {
 }
 
 func h1CloneAsyncPairs(r *hk.Run, rng *hk.Rand, count int) { h1PairsGen(r, rng, count, genCloneAsync) }
+
+// genDisableMid: client-level asynchronous dump is switched off (DisableDumpAll) when the response
+// head has arrived; the caller then reads a body of 20 000+ bytes in 512-byte pieces (far more
+// dump writes than the queue holds)
+func genDisableMid(rng *hk.Rand) exSpec {
+	for {
+		ex := genExchange(rng)
+		f := ex.Resps[len(ex.Resps)-1]
+		if ex.Expect || ex.Retry || ex.Method == "HEAD" || f.BodyLen < 20000 || f.Gzip || f.Fault != "" || f.Truncate > 0 || ex.After {
+			continue
+		}
+		ex.DisableMid, ex.ManualRead, ex.Clone = true, 512, false
+		ex.Shape = "disable-mid-stream+" + ex.Shape
+		return ex
+	}
+}
+
+func h1DisableMidPairs(r *hk.Run, rng *hk.Rand, count int) { h1PairsGen(r, rng, count, genDisableMid) }
+
+// genRetryOnErr: the first attempt is read by the origin and answered with a closed connection
+// (no response at all); the retry configured for errors then succeeds.  The request-level dumper
+// mostly writes to the request's own buffer, which Request.do resets before every new attempt:
+// Response.Dump() must hold the last attempt exactly once; explicit writers hold every attempt.
+func genRetryOnErr(rng *hk.Rand) exSpec {
+	for {
+		ex := genExchange(rng)
+		if ex.Expect || ex.Retry || ex.Warm || ex.After || ex.BodyKind == "reader" || len(ex.Resps) != 1 || ex.Resps[0].Truncate > 0 || ex.Resps[0].Fault != "" {
+			continue
+		}
+		ex.RetryOnErr = true
+		ex.Resps = []respSpec{{Status: 0, Framing: "none", CloseNoResp: true}, ex.Resps[0]}
+		ex.Shape = "retry-after-no-response+" + ex.Shape
+		return ex
+	}
+}
+
+func h1RetryOnErrPairs(r *hk.Run, rng *hk.Rand, count int) { h1PairsGen(r, rng, count, genRetryOnErr) }
